@@ -268,12 +268,19 @@ def r_value_map(chk, P, tier):
             return (n, norm)
         return ("?", v)
 
+    # accessors: also both sides of every unit boundary with a sub-second part (floor seconds and truncated seconds differ exactly there)
+    unit_edges = []
+    for u in (60, 3600, 86400, 604800):
+        for sg in (1, -1):
+            for frac in (-NS // 2, -1, 0, 1, NS // 2):
+                unit_edges.append(sg * u * NS + frac)
     for a in ends:
         for b in ends:
             for fn, r in (("checked_add", a + b), ("checked_sub", a - b)):
                 got = opt_td(fold(fn, [("ref", _td(a)), ("ref", _td(b))]))
                 expect(fn, (a, b), got, (r, True) if inr(r) else None)
-        for k in (I32[0], I32[0] + 1, -1000, -3, -2, -1, 0, 1, 2, 3, 7, 1000, I32[1] - 1, I32[1]):
+    for a in ends + unit_edges:
+        for k in ((I32[0], I32[0] + 1, -1000, -3, -2, -1, 0, 1, 2, 3, 7, 1000, I32[1] - 1, I32[1]) if a in ends else (-7, -1, 2)):
             got = opt_td(fold("checked_mul", [("ref", _td(a)), ("const", k)]))
             expect("checked_mul", (a, k), got, (a * k, True) if inr(a * k) else None)
             got = opt_td(fold("checked_div", [("ref", _td(a)), ("const", k)]))
